@@ -54,6 +54,7 @@ type poolAnalysis struct {
 	cbParams map[*ssa.Parameter]bool
 	jCount   int
 	seqArgs  []ssa.Value // actuals for the sequential counterpart when there is no shortcut call
+	clamped  bool        // the spawn loop's bound is not the pool-size parameter itself
 }
 
 func (pa *poolAnalysis) isCallback(e *env, v ssa.Value) bool {
@@ -335,6 +336,16 @@ func (k *checker) analysePool(fn *ssa.Function, out sink) {
 	pa.spawn = cl
 	pa.ev.ivs[cl.phi] = "i"
 	lo, hi := cl.bounds(pa.root)
+	if !hi.ok() && cl.hiAdj == 0 {
+		// the loop bound is not an expression over the parameters (a clamped / recomputed pool
+		// size): give the worker count that is actually used a symbol of its own
+		if pa.ev.named == nil {
+			pa.ev.named = map[ssa.Value]string{}
+		}
+		pa.ev.named[cl.hi] = "workers"
+		pa.clamped = true
+		lo, hi = cl.bounds(pa.root)
+	}
 	lop, ok1 := lo.plain()
 	hip, ok2 := hi.plain()
 	if !ok1 || !ok2 || !lop.isZero() {
@@ -345,6 +356,9 @@ func (k *checker) analysePool(fn *ssa.Function, out sink) {
 	pa.ev.spawnIV, pa.ev.spawnN, pa.ev.haveLast = cl.phi, hip, true
 	if r, _ := pa.root.resolve(cl.hi); r != nil {
 		pa.sizePar, _ = r.(*ssa.Parameter)
+	}
+	if pa.sizePar == nil {
+		pa.sizePar = paramBehind(cl.hi)
 	}
 
 	// worker environment
@@ -389,6 +403,21 @@ func (k *checker) analysePool(fn *ssa.Function, out sink) {
 			} else if !total.equal(h) && i > 0 {
 				out.undecide("SYM-PART", name+":sequential-range", p.Pos(ssau.PosOf(sv.call)), "sequential counterpart visits different totals: "+total.String()+" vs "+h.String())
 			}
+		}
+	}
+
+	// ---- SYM-PART: the number of workers the spawn loop really uses is ≥ 1 whenever total ≥ 1
+	if haveTotal {
+		construct := name + ":worker-count"
+		lb, exact, how := pa.workersLowerBound(cl.hi, total, 0)
+		switch {
+		case lb >= 1:
+			out.hold("SYM-PART", construct, gpos, "workers ≥ 1 whenever total ≥ 1: "+how)
+		case exact:
+			out.violate("SYM-PART", construct, gpos,
+				fmt.Sprintf("the spawn loop runs for a worker count that can be %d while total ≥ 1 (%s): with no worker nothing is visited, so hi(last) = total fails", lb, how))
+		default:
+			out.undecide("SYM-PART", construct, gpos, "cannot establish that the spawn loop's worker count is ≥ 1 whenever total ≥ 1: "+how)
 		}
 	}
 
@@ -553,7 +582,11 @@ func (pa *poolAnalysis) shortcut(out sink) (*ssa.Function, *ssa.Call) {
 		if !ok1 || !ok2 {
 			continue
 		}
-		if !(x.equal(pa.n) && y.equal(pConst(1))) && !(y.equal(pa.n) && x.equal(pConst(1))) {
+		isSize := func(q Poly) bool {
+			// the worker count, or the pool-size parameter it was derived from
+			return q.equal(pa.n) || (pa.sizePar != nil && q.equal(pAtom(pa.sizePar.Name())))
+		}
+		if !(isSize(x) && y.equal(pConst(1))) && !(isSize(y) && x.equal(pConst(1))) {
 			continue
 		}
 		tb := b.Succs[0]
@@ -1039,4 +1072,102 @@ func singleAtomOr(p Poly) string {
 		return a
 	}
 	return "\x00none"
+}
+
+// workersLowerBound computes a lower bound of the worker count under the assumptions
+// total ≥ 1 and pool size ≥ 1. exact reports that the bound is attained for some input
+// (only constants, parameters, len(total), φ choices, min/max and division by a constant
+// are involved), so a bound below 1 is a counter-example and not just ignorance.
+func (pa *poolAnalysis) workersLowerBound(v ssa.Value, total Poly, depth int) (lb int64, exact bool, how string) {
+	const unknown = int64(-1 << 40)
+	if depth > 12 {
+		return unknown, false, "expression too deep"
+	}
+	e := pa.root
+	switch x := v.(type) {
+	case *ssa.Const:
+		if n, ok := ssau.ConstInt(x); ok {
+			return n, true, fmt.Sprint(n)
+		}
+	case *ssa.Parameter:
+		return 1, true, "pool size parameter " + x.Name() + " ≥ 1"
+	case *ssa.Convert:
+		return pa.workersLowerBound(x.X, total, depth+1)
+	case *ssa.ChangeType:
+		return pa.workersLowerBound(x.X, total, depth+1)
+	case *ssa.UnOp:
+		if x.Op == token.MUL {
+			if sv, _ := e.cellValue(x.X); sv != nil {
+				return pa.workersLowerBound(sv, total, depth+1)
+			}
+		}
+	case *ssa.Phi:
+		best, ex := int64(1<<40), true
+		var parts []string
+		for _, ed := range x.Edges {
+			if ed == ssa.Value(x) {
+				continue
+			}
+			l, e1, h := pa.workersLowerBound(ed, total, depth+1)
+			parts = append(parts, h)
+			if l < best {
+				best = l
+			}
+			ex = ex && e1
+		}
+		return best, ex, "one of {" + strings.Join(parts, " | ") + "}"
+	case *ssa.BinOp:
+		l1, e1, h1 := pa.workersLowerBound(x.X, total, depth+1)
+		l2, e2, h2 := pa.workersLowerBound(x.Y, total, depth+1)
+		switch x.Op {
+		case token.QUO:
+			if c, ok := ssau.ConstInt(x.Y); ok && c > 0 && l1 >= 0 {
+				return l1 / c, e1, fmt.Sprintf("(%s)/%d", h1, c)
+			}
+		case token.ADD:
+			if l1 > unknown && l2 > unknown {
+				return l1 + l2, e1 && e2, h1 + " + " + h2
+			}
+		case token.MUL:
+			if l1 >= 0 && l2 >= 0 {
+				return l1 * l2, e1 && e2, h1 + " * " + h2
+			}
+		}
+	case *ssa.Call:
+		switch ssau.Builtin(x) {
+		case "len", "cap":
+			if p, ok := e.evalLen(x.Call.Args[0]).plain(); ok && p.equal(total) {
+				return 1, true, "total ≥ 1"
+			}
+			return 0, false, "a length ≥ 0"
+		case "min":
+			best, ex := int64(1<<40), true
+			var parts []string
+			for _, a := range x.Call.Args {
+				l, e1, h := pa.workersLowerBound(a, total, depth+1)
+				parts = append(parts, h)
+				if l < best {
+					best = l
+				}
+				ex = ex && e1
+			}
+			return best, ex, "min(" + strings.Join(parts, ", ") + ")"
+		case "max":
+			best, ex := unknown, true
+			var parts []string
+			for _, a := range x.Call.Args {
+				l, e1, h := pa.workersLowerBound(a, total, depth+1)
+				parts = append(parts, h)
+				if l > best {
+					best = l
+				}
+				ex = ex && e1
+			}
+			return best, ex, "max(" + strings.Join(parts, ", ") + ")"
+		}
+		if o := ssau.CalleeObj(x); o != nil && (ssau.IsFunc(o, "runtime", "NumCPU") || ssau.IsFunc(o, "runtime", "GOMAXPROCS")) {
+			return 1, true, o.Name() + "() ≥ 1"
+		}
+	}
+	return unknown, false, "value " + e.str(v) + " has no known lower bound"
 }
